@@ -180,6 +180,8 @@ def check_comparisons(acc, kind, u, v, x):
             variants.append(('differ', rel, si.convert(x * (1 + rel), kind, u, v)))
         if c is None:
             variants.append(('differ', 'opposite sign', si.convert(-x, kind, u, v)))
+        if u != v and abs(float(si.exact_ratio(kind, u, v)) - 1.0) > 1e-3:
+            variants.append(('differ', 'same number, other unit', x))      # 1.0 m vs 1.0 mm: equal numbers, different magnitudes
     a = K(x, u)
     sa = si.si_exact(x, kind, u)
     for cls, k, y in variants:
